@@ -145,6 +145,8 @@ pub mod trusted {
     pub broadcast axiom fn axiom_object_uuid_key_model() ensures #[trigger] obeys_key_model::<ObjectUuid>();
     pub broadcast axiom fn axiom_svc_key_model() ensures #[trigger] obeys_key_model::<(ObjectUuid, ServiceUuid)>();
     pub broadcast axiom fn axiom_bl_cookie_key_model() ensures #[trigger] obeys_key_model::<BusListenerCookie>();
+    pub broadcast axiom fn axiom_object_cookie_key_model() ensures #[trigger] obeys_key_model::<ObjectCookie>();
+    pub broadcast axiom fn axiom_service_cookie_key_model() ensures #[trigger] obeys_key_model::<ServiceCookie>();
     pub broadcast axiom fn axiom_filter_key_model() ensures #[trigger] obeys_key_model::<BusListenerFilter>();
     // ConnectionId: two handles denote the same connection iff their numeric ids are equal (conn_id.rs: Eq, Hash and
     // the id all derive from the same counter value). ASSUMED.
@@ -154,7 +156,7 @@ pub mod trusted {
 broadcast use {
     trusted::axiom_conn_id_key_model, trusted::axiom_channel_cookie_key_model, trusted::axiom_conn_id_injective,
     trusted::axiom_bl_cookie_key_model, trusted::axiom_filter_key_model, trusted::axiom_object_uuid_key_model,
-    trusted::axiom_svc_key_model,
+    trusted::axiom_svc_key_model, trusted::axiom_object_cookie_key_model, trusted::axiom_service_cookie_key_model,
     vstd::std_specs::hash::group_hash_axioms,
 };
 
